@@ -31,3 +31,18 @@ let main_loop (f : string list -> string) =
        end
      done
    with End_of_file -> ())
+
+(* ---- domain registry: a domain file calls [register] / [register_whole] at load time ---- *)
+let case_domains : (string, string list -> string) Hashtbl.t = Hashtbl.create 16
+let whole_domains : (string, unit -> unit) Hashtbl.t = Hashtbl.create 16
+let register name f = Hashtbl.replace case_domains name f
+let register_whole name f = Hashtbl.replace whole_domains name f
+
+let main () =
+  let domain = if Array.length Sys.argv > 1 then Sys.argv.(1) else "" in
+  match Hashtbl.find_opt whole_domains domain with
+  | Some f -> f ()
+  | None ->
+    match Hashtbl.find_opt case_domains domain with
+    | Some f -> main_loop f
+    | None -> (prerr_endline ("unknown domain " ^ domain); exit 2)
